@@ -59,6 +59,7 @@ structure PnOK (Pn : Obs τ → Prop) : Prop where
   write : ∀ j c, Pn (.write j c)
   bid : ∀ b t c p, Pn (.bid b t c p)
   check : ∀ j ok, Pn (.check j ok)
+  mark : ∀ j f b, Pn (.mark j f b)
   noRecv : ∀ o, Pn o → o.isRecv = false
 
 /-- a fiat entry whose recorded return value is `status == <expected>` (any other entry is fine) -/
@@ -72,9 +73,10 @@ def good (o : Obs τ) : Prop := o.isRecv = false ∧ o.fiatTrue
 def plain (o : Obs τ) : Prop := o.isRecv = false ∧ o.isFiat = false
 
 theorem good_ok : PnOK (good (τ := τ)) :=
-  ⟨fun _ _ => ⟨rfl, trivial⟩, fun _ _ _ _ => ⟨rfl, trivial⟩, fun _ _ => ⟨rfl, trivial⟩, fun _ h => h.1⟩
+  ⟨fun _ _ => ⟨rfl, trivial⟩, fun _ _ _ _ => ⟨rfl, trivial⟩, fun _ _ => ⟨rfl, trivial⟩, fun _ _ _ => ⟨rfl, trivial⟩,
+   fun _ h => h.1⟩
 theorem plain_ok : PnOK (plain (τ := τ)) :=
-  ⟨fun _ _ => ⟨rfl, rfl⟩, fun _ _ _ _ => ⟨rfl, rfl⟩, fun _ _ => ⟨rfl, rfl⟩, fun _ h => h.1⟩
+  ⟨fun _ _ => ⟨rfl, rfl⟩, fun _ _ _ _ => ⟨rfl, rfl⟩, fun _ _ => ⟨rfl, rfl⟩, fun _ _ _ => ⟨rfl, rfl⟩, fun _ h => h.1⟩
 
 theorem plain_good {o : Obs τ} (h : plain o) : good o := by
   refine ⟨h.1, ?_⟩
@@ -82,29 +84,28 @@ theorem plain_good {o : Obs τ} (h : plain o) : good o := by
 
 /-- the effect of a hook run on behalf of framer `i` -/
 structure Fx (Pn : Obs τ → Prop) (i : Nat) (w w' : World τ) : Prop where
-  self : stat w' i = stat w i
-  ext : ∃ n, w'.trace = w.trace ++ n ∧ (∀ o ∈ n, Pn o) ∧ ∀ k, k ≠ i → stat w' k = applyFiats n k (stat w k)
+  ext : ∃ n, w'.trace = w.trace ++ n ∧ (∀ o ∈ n, Pn o) ∧ ∀ k, stat w' k = applyFiats n k (stat w k)
   desire : DesireOK w → DesireOK w'
 
 theorem Fx.refl (Pn : Obs τ → Prop) (i : Nat) (w : World τ) : Fx Pn i w w :=
-  ⟨rfl, ⟨[], by simp, by simp, fun _ _ => rfl⟩, id⟩
+  ⟨⟨[], by simp, by simp, fun _ => rfl⟩, id⟩
 
 theorem Fx.trans {Pn : Obs τ → Prop} {i : Nat} {w w' w'' : World τ} (h1 : Fx Pn i w w') (h2 : Fx Pn i w' w'') :
     Fx Pn i w w'' := by
   obtain ⟨n1, t1, p1, o1⟩ := h1.ext
   obtain ⟨n2, t2, p2, o2⟩ := h2.ext
-  refine ⟨by rw [h2.self, h1.self], ⟨n1 ++ n2, by rw [t2, t1]; simp, ?_, ?_⟩, fun h => h2.desire (h1.desire h)⟩
+  refine ⟨⟨n1 ++ n2, by rw [t2, t1]; simp, ?_, ?_⟩, fun h => h2.desire (h1.desire h)⟩
   · intro o ho
     rcases List.mem_append.mp ho with h | h
     · exact p1 o h
     · exact p2 o h
-  · intro k hk
-    rw [o2 k hk, o1 k hk, applyFiats_append]
+  · intro k
+    rw [o2 k, o1 k, applyFiats_append]
 
 /-- a world that differs only in flags / the `unsupported` mark / non-status, non-desire attributes -/
 theorem Fx.of_same {Pn : Obs τ → Prop} {i : Nat} {w w' : World τ}
     (hs : ∀ k, stat w' k = stat w k) (hd : ∀ k, des w' k = des w k) (ht : w'.trace = w.trace) : Fx Pn i w w' := by
-  refine ⟨hs i, ⟨[], by simp [ht], by simp, fun k _ => by simp [applyFiats, hs k]⟩, ?_⟩
+  refine ⟨⟨[], by simp [ht], by simp, fun k => by simp [applyFiats, hs k]⟩, ?_⟩
   intro h k c hk
   rw [ht] at hk
   rw [hd k]; exact h k c hk
@@ -132,8 +133,8 @@ theorem DesireOK.log {w : World τ} (h : DesireOK w) (o : Obs τ) (hw : ∀ j c,
 /-- logging an entry that is neither a write nor a fiat nor a scheduler marker -/
 theorem Fx.log {Pn : Obs τ → Prop} (i : Nat) (w : World τ) (o : Obs τ) (hp : Pn o)
     (hw : ∀ j c, o ≠ .write j c) (hf : o.isFiat = false) : Fx Pn i w (w.log o) := by
-  refine ⟨rfl, ⟨[o], rfl, by simpa using hp, ?_⟩, ?_⟩
-  · intro k _
+  refine ⟨⟨[o], rfl, by simpa using hp, ?_⟩, ?_⟩
+  · intro k
     rw [applyFiats_noFiat [o] k _ (by simpa using hf)]; rfl
   · intro h k c hk
     simp only [World.log] at hk
@@ -144,11 +145,8 @@ theorem Fx.log {Pn : Obs τ → Prop} (i : Nat) (w : World τ) (o : Obs τ) (hp 
 
 theorem Fx.writeDesire {Pn : Obs τ → Prop} (hP : PnOK Pn) (i j : Nat) (c : Control) (w : World τ) :
     Fx Pn i w (writeDesire j c w) := by
-  refine ⟨?_, ⟨[.write j c], rfl, by simpa using hP.write j c, ?_⟩, ?_⟩
-  · simp only [stat, Ioflo.Bids.writeDesire, World.log, World.modF]; split
-    · rename_i h; rw [h]
-    · rfl
-  · intro k _
+  refine ⟨⟨[.write j c], rfl, by simpa using hP.write j c, ?_⟩, ?_⟩
+  · intro k
     rw [applyFiats_noFiat _ k _ (by simp [Obs.isFiat])]
     simp only [stat, Ioflo.Bids.writeDesire, World.log, World.modF]; split
     · rename_i h; rw [h]
@@ -213,78 +211,99 @@ theorem Fx.evalGuards {Pn : Obs τ → Prop} (hP : PnOK Pn) {H : FiatH τ} (hH :
     · exact Fx.trans (hH i c sl w) (Fx.evalGuards hP hH i rest _)
     · exact hH i c sl w
 
+theorem Fx.guardsOf {Pn : Obs τ → Prop} (hP : PnOK Pn) {H : FiatH τ} (hH : HSpec Pn H) (i : Nat) :
+    ∀ (fs : List Nat) (w : World τ), Fx Pn i w (guardsOf H i fs w).2
+  | [], w => Fx.refl _ _ _
+  | f :: rest, w => by
+    simp only [Ioflo.Bids.guardsOf]
+    split
+    · exact Fx.trans (Fx.evalGuards hP hH i _ w) (Fx.guardsOf hP hH i rest _)
+    · exact Fx.evalGuards hP hH i _ w
+
 theorem Fx.checkStart {Pn : Obs τ → Prop} (hP : PnOK Pn) {H : FiatH τ} (hH : HSpec Pn H) (i : Nat) (w : World τ) :
     Fx Pn i w (checkStart H i w).2 := by
   unfold Ioflo.Bids.checkStart
   simp only []
   generalize hr : (if (w.framers i).frames.isEmpty = true then (false, w)
-      else Ioflo.Bids.evalGuards H i (frameOf (w.framers i) 0).beacts w) = r
+      else Ioflo.Bids.guardsOf H i (outline (w.framers i).frames 0) w) = r
   have h1 : Fx Pn i w r.2 := by
     rw [← hr]
     split
     · exact Fx.refl _ _ _
-    · exact Fx.evalGuards hP hH i _ w
+    · exact Fx.guardsOf hP hH i _ w
   exact Fx.trans h1 (Fx.log i r.2 (.check i r.1) (hP.check _ _) (by simp) rfl)
 
 theorem Fx.setRecurred {Pn : Obs τ → Prop} (i j n : Nat) (w : World τ) : Fx Pn i w (setRecurred j n w) :=
   Fx.modF i j w _ (fun _ => rfl) (fun _ => rfl)
 theorem Fx.bumpRecurred {Pn : Obs τ → Prop} (i j : Nat) (w : World τ) : Fx Pn i w (bumpRecurred j w) :=
   Fx.modF i j w _ (fun _ => rfl) (fun _ => rfl)
-theorem Fx.setActive {Pn : Obs τ → Prop} (i j : Nat) (a : Option Nat) (w : World τ) : Fx Pn i w (setActive j a w) :=
+theorem Fx.setActives {Pn : Obs τ → Prop} (i j : Nat) (a : List Nat) (w : World τ) : Fx Pn i w (setActives j a w) :=
   Fx.modF i j w _ (fun _ => rfl) (fun _ => rfl)
 
-theorem Fx.enterFrame {Pn : Obs τ → Prop} (hP : PnOK Pn) {H : FiatH τ} (hH : HSpec Pn H) (i idx : Nat) (w : World τ) :
-    Fx Pn i w (enterFrame H i idx w) := by
-  unfold Ioflo.Bids.enterFrame
-  exact Fx.trans (Fx.setRecurred i i 0 w) (Fx.trans (Fx.runActs hP hH i _ _) (Fx.setActive i i _ _))
+theorem Fx.enterFrames {Pn : Obs τ → Prop} (hP : PnOK Pn) {H : FiatH τ} (hH : HSpec Pn H) (i : Nat) :
+    ∀ (fs : List Nat) (w : World τ), Fx Pn i w (enterFrames H i fs w)
+  | [], w => Fx.refl _ _ _
+  | f :: rest, w => by
+    simp only [Ioflo.Bids.enterFrames]
+    exact Fx.trans (Fx.trans (Fx.log i w (.mark i f true) (hP.mark _ _ _) (by simp) rfl) (Fx.runActs hP hH i _ _))
+      (Fx.enterFrames hP hH i rest _)
+
+theorem Fx.exitFrames {Pn : Obs τ → Prop} (hP : PnOK Pn) {H : FiatH τ} (hH : HSpec Pn H) (i : Nat) :
+    ∀ (fs : List Nat) (w : World τ), Fx Pn i w (exitFrames H i fs w)
+  | [], w => Fx.refl _ _ _
+  | f :: rest, w => by
+    simp only [Ioflo.Bids.exitFrames]
+    exact Fx.trans (Fx.trans (Fx.log i w (.mark i f false) (hP.mark _ _ _) (by simp) rfl) (Fx.runActs hP hH i _ _))
+      (Fx.exitFrames hP hH i rest _)
+
+theorem Fx.recurFrames {Pn : Obs τ → Prop} (hP : PnOK Pn) {H : FiatH τ} (hH : HSpec Pn H) (i : Nat) :
+    ∀ (fs : List Nat) (w : World τ), Fx Pn i w (recurFrames H i fs w)
+  | [], w => Fx.refl _ _ _
+  | f :: rest, w => by
+    simp only [Ioflo.Bids.recurFrames]
+    exact Fx.trans (Fx.runActs hP hH i _ _) (Fx.recurFrames hP hH i rest _)
 
 theorem Fx.enterAll {Pn : Obs τ → Prop} (hP : PnOK Pn) {H : FiatH τ} (hH : HSpec Pn H) (i : Nat) (w : World τ) :
     Fx Pn i w (enterAll H i w) := by
   unfold Ioflo.Bids.enterAll
-  exact Fx.trans (Fx.setActive i i _ w) (Fx.enterFrame hP hH i 0 _)
+  exact Fx.trans (Fx.trans (Fx.setActives i i _ w) (Fx.setRecurred i i 0 _)) (Fx.enterFrames hP hH i _ _)
 
 theorem Fx.recur {Pn : Obs τ → Prop} (hP : PnOK Pn) {H : FiatH τ} (hH : HSpec Pn H) (i : Nat) (w : World τ) :
-    Fx Pn i w (recur H i w) := by
-  unfold Ioflo.Bids.recur
-  split
-  · exact Fx.runActs hP hH i _ w
-  · exact Fx.refl _ _ _
-
-theorem Fx.exitActive {Pn : Obs τ → Prop} (hP : PnOK Pn) {H : FiatH τ} (hH : HSpec Pn H) (i : Nat) (w : World τ) :
-    Fx Pn i w (exitActive H i w) := by
-  unfold Ioflo.Bids.exitActive
-  split
-  · exact Fx.runActs hP hH i _ w
-  · exact Fx.refl _ _ _
+    Fx Pn i w (recur H i w) := Fx.recurFrames hP hH i _ w
 
 theorem Fx.exitAll {Pn : Obs τ → Prop} (hP : PnOK Pn) {H : FiatH τ} (hH : HSpec Pn H) (i : Nat) (w : World τ) :
     Fx Pn i w (exitAll H i w) := by
   unfold Ioflo.Bids.exitAll
-  exact Fx.trans (Fx.exitActive hP hH i w) (Fx.setActive i i _ _)
+  exact Fx.trans (Fx.exitFrames hP hH i _ w) (Fx.setActives i i _ _)
 
-theorem Fx.precur {Pn : Obs τ → Prop} (hP : PnOK Pn) {H : FiatH τ} (hH : HSpec Pn H) (i near : Nat) :
-    ∀ (ts : List Trans) (w : World τ), Fx Pn i w (precur H i near ts w)
+theorem Fx.precur {Pn : Obs τ → Prop} (hP : PnOK Pn) {H : FiatH τ} (hH : HSpec Pn H) (i : Nat) :
+    ∀ (ts : List Trans) (w : World τ), Fx Pn i w (precur H i ts w).1
   | [], w => Fx.refl _ _ _
   | t :: rest, w => by
     simp only [Ioflo.Bids.precur]
     split
     · split
-      · exact Fx.trans (Fx.evalGuards hP hH i _ w)
-          (Fx.trans (Fx.runActs hP hH i _ _) (Fx.enterFrame hP hH i _ _))
-      · exact Fx.trans (Fx.evalGuards hP hH i _ w) (Fx.precur hP hH i near rest _)
-    · exact Fx.precur hP hH i near rest w
+      · exact Fx.precur hP hH i rest w
+      · split
+        · exact Fx.trans (Fx.guardsOf hP hH i _ w)
+            (Fx.trans (Fx.exitFrames hP hH i _ _) (Fx.trans (Fx.setRecurred i i 0 _)
+              (Fx.trans (Fx.enterFrames hP hH i _ _) (Fx.setActives i i _ _))))
+        · exact Fx.trans (Fx.guardsOf hP hH i _ w) (Fx.precur hP hH i rest _)
+    · exact Fx.precur hP hH i rest w
 
-theorem Fx.precurActive {Pn : Obs τ → Prop} (hP : PnOK Pn) {H : FiatH τ} (hH : HSpec Pn H) (i : Nat) (w : World τ) :
-    Fx Pn i w (precurActive H i w) := by
-  unfold Ioflo.Bids.precurActive
-  split
-  · exact Fx.precur hP hH i _ _ w
-  · exact Fx.refl _ _ _
+theorem Fx.precurFrames {Pn : Obs τ → Prop} (hP : PnOK Pn) {H : FiatH τ} (hH : HSpec Pn H) (i : Nat) :
+    ∀ (fs : List Nat) (w : World τ), Fx Pn i w (precurFrames H i fs w)
+  | [], w => Fx.refl _ _ _
+  | f :: rest, w => by
+    simp only [Ioflo.Bids.precurFrames]
+    split
+    · exact Fx.precur hP hH i _ w
+    · exact Fx.trans (Fx.precur hP hH i _ w) (Fx.precurFrames hP hH i rest _)
 
 theorem Fx.segue {Pn : Obs τ → Prop} (hP : PnOK Pn) {H : FiatH τ} (hH : HSpec Pn H) (i : Nat) (w : World τ) :
     Fx Pn i w (segue H i w) := by
   unfold Ioflo.Bids.segue
-  exact Fx.trans (Fx.bumpRecurred i i w) (Fx.precurActive hP hH i _)
+  exact Fx.trans (Fx.bumpRecurred i i w) (Fx.precurFrames hP hH i _ _)
 
 /-! ### the runner table -/
 
@@ -293,8 +312,9 @@ structure Tx (Pn : Obs τ → Prop) (i : Nat) (w w' : World τ) : Prop where
   ext : ∃ n, w'.trace = w.trace ++ n ∧ (∀ o ∈ n, Pn o) ∧ ∀ k, k ≠ i → stat w' k = applyFiats n k (stat w k)
   desire : DesireOK w → DesireOK w'
 
-theorem Fx.toTx {Pn : Obs τ → Prop} {i : Nat} {w w' : World τ} (h : Fx Pn i w w') : Tx Pn i w w' :=
-  ⟨h.ext, h.desire⟩
+theorem Fx.toTx {Pn : Obs τ → Prop} {i : Nat} {w w' : World τ} (h : Fx Pn i w w') : Tx Pn i w w' := by
+  obtain ⟨n, a, b, c⟩ := h.ext
+  exact ⟨⟨n, a, b, fun k _ => c k⟩, h.desire⟩
 
 theorem Tx.refl (Pn : Obs τ → Prop) (i : Nat) (w : World τ) : Tx Pn i w w := (Fx.refl Pn i w).toTx
 
@@ -437,42 +457,46 @@ theorem table_status (H : FiatH τ) (i : Nat) (c : Control) (w : World τ) :
       Ioflo.Bids.writeDesire, World.log] <;>
     (try (split <;> simp [stat] at * <;> simp_all))
 
-/-! ### the two fiat handlers -/
+/-! ### the fiat handlers, at every depth of the master/slave tree -/
 
-theorem noFiat_spec : HSpec (plain (τ := τ)) noFiat := by
+theorem noFiat_spec (Pn : Obs τ → Prop) : HSpec Pn (noFiat (τ := τ)) := by
   intro by_ c sl w
   exact Fx.of_same (fun _ => rfl) (fun _ => rfl) rfl
 
-theorem fiatTop_spec : HSpec (good (τ := τ)) fiatTop := by
-  intro by_ c sl w
-  unfold fiatTop
-  split
-  · exact Fx.of_same (fun _ => rfl) (fun _ => rfl) rfl
-  · rename_i hne
+/-- **Induction over the tree of masters and slaves.** Whatever the depth budget `d` and the chain of framers
+executing above: carrying out a fiat — resuming the slave, whose frames may themselves fiat their own slaves,
+and so on — only appends to the trace, appends no scheduler marker and only truthful fiat entries, changes
+statuses exactly as the logged fiats say, and keeps every desire equal to its last recorded write. -/
+theorem fiatD_spec : ∀ (d : Nat) (chain : List Nat), HSpec (good (τ := τ)) (fiatD d chain)
+  | 0, chain => noFiat_spec _
+  | d+1, chain => by
+    intro by_ c sl w
+    unfold fiatD
     simp only []
-    have tx := table_tx plain_ok noFiat_spec sl w c
-    obtain ⟨n, ht, hp, ho⟩ := tx.ext
-    have hnf : ∀ o ∈ n, o.isFiat = false := fun o h => (hp o h).2
-    have hby : by_ ≠ sl := fun h => hne h.symm
-    refine ⟨?_, ⟨n ++ [.fiat by_ sl c (table noFiat sl c w).1 (decide ((table noFiat sl c w).1 = expected c))], ?_, ?_, ?_⟩, ?_⟩
-    · show stat (table noFiat sl c w).2 by_ = stat w by_
-      rw [ho by_ hby, applyFiats_noFiat n by_ _ hnf]
-    · simp [World.log, ht]
-    · intro o h
-      rcases List.mem_append.mp h with h | h
-      · exact plain_good (hp o h)
-      · simp at h; subst h; exact ⟨rfl, rfl⟩
-    · intro k hk
-      show stat (table noFiat sl c w).2 k = _
-      rw [applyFiats_append, applyFiats_noFiat n k _ hnf]
-      by_cases hks : k = sl
-      · subst hks
-        simp [applyFiats, table_yields]
-      · rw [ho k hks, applyFiats_noFiat n k _ hnf]
-        have : ¬ sl = k := fun h => hks h.symm
-        simp [applyFiats, this]
-    · intro h
-      exact (tx.desire h).log _ (by simp)
+    split
+    · exact Fx.of_same (fun _ => rfl) (fun _ => rfl) rfl
+    · have tx := table_tx good_ok (fiatD_spec d (by_ :: chain)) sl w c
+      obtain ⟨n, ht, hp, ho⟩ := tx.ext
+      refine ⟨⟨n ++ [.fiat by_ sl c (table (fiatD d (by_ :: chain)) sl c w).1
+          (decide ((table (fiatD d (by_ :: chain)) sl c w).1 = expected c))], ?_, ?_, ?_⟩, ?_⟩
+      · simp [World.log, ht]
+      · intro o h
+        rcases List.mem_append.mp h with h | h
+        · exact hp o h
+        · simp at h; subst h; exact ⟨rfl, rfl⟩
+      · intro k
+        show stat (table (fiatD d (by_ :: chain)) sl c w).2 k = _
+        rw [applyFiats_append]
+        by_cases hks : k = sl
+        · subst hks
+          simp [applyFiats, table_yields]
+        · rw [ho k hks]
+          have : ¬ sl = k := fun h => hks h.symm
+          simp [applyFiats, this]
+      · intro h
+        exact (tx.desire h).log _ (by simp)
+
+theorem fiatTop_spec (n : Nat) : HSpec (good (τ := τ)) (fiatTop n) := fiatD_spec _ _
 
 /-! ### one scheduler send -/
 
@@ -481,12 +505,12 @@ theorem send_tx (ph : Phase) (i : Nat) (c : Control) (stamp : τ) (w : World τ)
       (∀ o ∈ n, good o) ∧
       (∀ k, k ≠ i → stat ((FramerEnv (τ := τ)).send ph i c stamp w).2 k = applyFiats n k (stat w k)) ∧
       (DesireOK w → DesireOK ((FramerEnv (τ := τ)).send ph i c stamp w).2) := by
-  have tx := table_tx good_ok fiatTop_spec i (w.log (.recv ph i c)) c
+  have tx := table_tx good_ok (fiatTop_spec w.n) i (w.log (.recv ph i c)) c
   obtain ⟨n, ht, hp, ho⟩ := tx.ext
-  refine ⟨n ++ [.yield i (table fiatTop i c (w.log (.recv ph i c))).1], ?_, ?_, ?_, ?_⟩
+  refine ⟨n ++ [.yield i (table (fiatTop w.n) i c (w.log (.recv ph i c))).1], ?_, ?_, ?_, ?_⟩
   · have h1 : ((FramerEnv (τ := τ)).send ph i c stamp w).2.trace =
-        (table fiatTop i c (w.log (.recv ph i c))).2.trace ++
-          [.yield i (table fiatTop i c (w.log (.recv ph i c))).1] := rfl
+        (table (fiatTop w.n) i c (w.log (.recv ph i c))).2.trace ++
+          [.yield i (table (fiatTop w.n) i c (w.log (.recv ph i c))).1] := rfl
     have h2 : (w.log (.recv ph i c)).trace = w.trace ++ [.recv ph i c] := rfl
     rw [h1, ht, h2]; simp
   · intro o h
@@ -494,7 +518,7 @@ theorem send_tx (ph : Phase) (i : Nat) (c : Control) (stamp : τ) (w : World τ)
     · exact hp o h
     · simp at h; subst h; exact ⟨rfl, trivial⟩
   · intro k hk
-    show stat (table fiatTop i c (w.log (.recv ph i c))).2 k = _
+    show stat (table (fiatTop w.n) i c (w.log (.recv ph i c))).2 k = _
     rw [ho k hk, applyFiats_append]
     simp [applyFiats, stat, World.log]
   · intro h
